@@ -676,6 +676,31 @@ func remapBlockHandles(block Block, handleMap []ExpressionHandle) {
 			k.Pointer = remap(k.Pointer)
 			k.Result = remap(k.Result)
 			block[i].Kind = k
+		case StmtImageAtomic:
+			k.Image = remap(k.Image)
+			k.Coordinate = remap(k.Coordinate)
+			if k.ArrayIndex != nil {
+				h := remap(*k.ArrayIndex)
+				k.ArrayIndex = &h
+			}
+			k.Value = remap(k.Value)
+			block[i].Kind = k
+		case StmtSubgroupBallot:
+			if k.Predicate != nil {
+				h := remap(*k.Predicate)
+				k.Predicate = &h
+			}
+			k.Result = remap(k.Result)
+			block[i].Kind = k
+		case StmtSubgroupCollectiveOperation:
+			k.Argument = remap(k.Argument)
+			k.Result = remap(k.Result)
+			block[i].Kind = k
+		case StmtSubgroupGather:
+			k.Mode = remapGatherMode(k.Mode, remap)
+			k.Argument = remap(k.Argument)
+			k.Result = remap(k.Result)
+			block[i].Kind = k
 		case StmtRayQuery:
 			k.Query = remap(k.Query)
 			switch f := k.Fun.(type) {
